@@ -38,22 +38,54 @@ Definition name_of (r : Apk.rank) : bytes :=
 Definition all_ranks : list Apk.rank :=
   [Apk.RAlpha; Apk.RBeta; Apk.RPre; Apk.RRc; Apk.RNone; Apk.RCvs; Apk.RSvn; Apk.RGit; Apk.RHg; Apk.RP].
 
-Definition ranks_ok (table : list (bytes * Z)) : bool :=
-  forallb (fun r => match lookup (name_of r) table with
-                    | Some o => (o =? Z.of_N (Apk.rank_ord r))%Z
-                    | None => false
-                    end) all_ranks.
+Definition comparison_eqb (a b : comparison) : bool :=
+  match a, b with Eq, Eq | Lt, Lt | Gt, Gt => true | _, _ => false end.
 
-Lemma suffixOrder_ranks_ok : ranks_ok suffixOrder = true.
+Lemma comparison_eqb_eq a b : comparison_eqb a b = true -> a = b.
+Proof. destruct a; destruct b; simpl; congruence. Qed.
+
+(* The side condition on the (generated) table, exactly what the proof of [cmp_suffix_of]
+   needs: every reference rank, "no suffix" = "" included, has its name in the table, and the
+   table's numbers order the ten names as the reference orders the ten ranks.  The numbers
+   themselves are free: any order-preserving renumbering of the Go map satisfies it. *)
+Definition ranks_iso (table : list (bytes * Z)) : bool :=
+  forallb (fun r1 =>
+    forallb (fun r2 =>
+      match lookup (name_of r1) table, lookup (name_of r2) table with
+      | Some o1, Some o2 =>
+          comparison_eqb (Z.compare o1 o2) (N.compare (Apk.rank_ord r1) (Apk.rank_ord r2))
+      | _, _ => false
+      end) all_ranks) all_ranks.
+
+Lemma suffixOrder_ranks_iso : ranks_iso suffixOrder = true.
 Proof. vm_compute. reflexivity. Qed.
 
-Lemma lookup_name_of r : lookup (name_of r) suffixOrder = Some (Z.of_N (Apk.rank_ord r)).
+(* kept under its former name: the table check the C14 theorems rest on *)
+Definition ranks_ok : list (bytes * Z) -> bool := ranks_iso.
+Lemma suffixOrder_ranks_ok : ranks_ok suffixOrder = true.
+Proof. exact suffixOrder_ranks_iso. Qed.
+
+Lemma all_ranks_complete r : In r all_ranks.
+Proof. destruct r; simpl; tauto. Qed.
+
+Lemma ranks_iso_spec table r1 r2 :
+  ranks_iso table = true ->
+  exists o1 o2, lookup (name_of r1) table = Some o1 /\ lookup (name_of r2) table = Some o2 /\
+                (o1 ?= o2)%Z = (Apk.rank_ord r1 ?= Apk.rank_ord r2).
 Proof.
-  pose proof suffixOrder_ranks_ok as H. unfold ranks_ok in H. rewrite forallb_forall in H.
-  assert (Hin : In r all_ranks) by (destruct r; simpl; tauto).
-  specialize (H r Hin). destruct (lookup (name_of r) suffixOrder) as [o|]; [|discriminate].
-  apply Z.eqb_eq in H. congruence.
+  unfold ranks_iso. rewrite forallb_forall. intros H.
+  specialize (H r1 (all_ranks_complete r1)). rewrite forallb_forall in H.
+  specialize (H r2 (all_ranks_complete r2)).
+  destruct (lookup (name_of r1) table) as [o1|]; [|discriminate].
+  destruct (lookup (name_of r2) table) as [o2|]; [|discriminate].
+  exists o1, o2. repeat split. apply comparison_eqb_eq, H.
 Qed.
+
+(* the model's table orders the reference's suffix names as the reference ranks them *)
+Lemma lookup_name_of r1 r2 :
+  exists o1 o2, lookup (name_of r1) suffixOrder = Some o1 /\ lookup (name_of r2) suffixOrder = Some o2 /\
+                (o1 ?= o2)%Z = (Apk.rank_ord r1 ?= Apk.rank_ord r2).
+Proof. apply ranks_iso_spec, suffixOrder_ranks_iso. Qed.
 
 (* ====================================================================================
    the structure the model builds from a reference AST
@@ -477,8 +509,9 @@ Qed.
 Lemma cmp_suffix_of p q : cmp_suffix (sfx_of p) (sfx_of q) = Apk.suffix_cmp p q.
 Proof.
   destruct p as [r1 n1]; destruct q as [r2 n2].
-  unfold cmp_suffix, sfx_of. cbn [sf_name sf_number fst snd]. rewrite !lookup_name_of.
-  rewrite !N2Z.inj_compare. reflexivity.
+  unfold cmp_suffix, sfx_of. cbn [sf_name sf_number fst snd].
+  destruct (lookup_name_of r1 r2) as (o1 & o2 & L1 & L2 & C). rewrite L1, L2, C.
+  rewrite N2Z.inj_compare. reflexivity.
 Qed.
 
 Lemma lex_pad_l_map {A B} (g : A -> B) pad c1 c2 l :
